@@ -14,12 +14,17 @@
 package dispdrv
 
 import (
+	"bufio"
+	"bytes"
 	"errors"
 	"fmt"
 	"math/rand"
+	"os"
+	"os/exec"
 	"reflect"
 	"runtime"
 	"sort"
+	"strconv"
 	"strings"
 	"sync"
 	"time"
@@ -29,7 +34,18 @@ import (
 	"verifharness/tr"
 )
 
-func init() { tr.Register("dispatcher", Run) }
+func init() {
+	tr.Register("dispatcher", Run)
+	tr.Register("dispchild", child)
+}
+
+// sink is the child's side of the pipe to the parent: every line is written
+// straight to the file, so that whatever was observed before a panic in the
+// dispatcher goroutine (which no recover of ours can catch) survives.
+type sink struct{ f *os.File }
+
+func (o *sink) line(format string, a ...any) { fmt.Fprintf(o.f, format+"\n", a...) }
+func (o *sink) Hit(k string)                 { o.line("#hit %s", k) }
 
 const (
 	watchdog  = 4 * time.Second
@@ -146,7 +162,7 @@ type workerT struct {
 type line struct{ op, obs string }
 
 type caseRun struct {
-	t        *tr.W
+	t        *sink
 	rng      *rand.Rand
 	wm       query.WorkManager
 	rk       *rankW
@@ -154,7 +170,6 @@ type caseRun struct {
 	workers  map[int]*workerT
 	batches  []*batchT
 	reqs     map[*query.Request][2]int
-	lines    []line
 	pending  func() // emits the line of the last dispatcher event
 	maxTries []int
 	mtMu     sync.Mutex
@@ -181,7 +196,11 @@ func verdictName(err error) string {
 	return errOther
 }
 
-func (c *caseRun) emit(op, obs string) { c.lines = append(c.lines, line{op, obs}) }
+func (c *caseRun) emit(op, obs string) { c.t.line("L %s => %s", op, obs) }
+
+// begin marks the event that is about to be handed to the dispatcher; if the
+// process dies before its line is written the parent reports it as PANIC.
+func (c *caseRun) begin(op string) { c.t.line("B %s", op) }
 
 // drain reads every verdict currently sitting in a result channel.
 func (c *caseRun) drain() string {
@@ -385,6 +404,7 @@ func (c *caseRun) doQuit() {
 	}
 	c.flush()
 	c.stopped = true
+	c.begin("quit")
 	done := make(chan struct{})
 	go func() { c.wm.Stop(); close(done) }()
 	if !c.service(done, true) {
@@ -421,6 +441,7 @@ func (c *caseRun) doBatch(n int, nrm bool, mr int, prog bool, hard string) {
 		opts = append(opts, query.Timeout(midDur))
 	}
 	op := fmt.Sprintf("batch %d %d %d %d %s", n, b2i(nrm), mr, b2i(prog), hard)
+	c.begin(op)
 	done := make(chan struct{})
 	go func() { b.errChan = c.wm.Query(reqs, opts...); close(done) }()
 	b.created = time.Now()
@@ -486,6 +507,7 @@ func (c *caseRun) doPeer(id int) {
 		}
 	}()
 	op := fmt.Sprintf("peer %d", id)
+	c.begin(op)
 	c.pending = func() { c.emit(op, c.drain()) }
 	if !c.service(done, false) {
 		c.pending = nil
@@ -553,6 +575,7 @@ func (c *caseRun) doResult(w *workerT, kind string) {
 			c.emit(fmt.Sprintf("exit %d", w.id), "-")
 		}
 	}
+	c.begin(op)
 	acked := w.w.Report(job, err)
 	if !c.service(acked, false) {
 		c.pending = nil
@@ -577,6 +600,7 @@ func (c *caseRun) doResult(w *workerT, kind string) {
 }
 
 func (c *caseRun) doWake(b, g int) {
+	c.begin(fmt.Sprintf("wake %d %d", b, g))
 	if !query.VerifWake(c.wm, uint64(b), uint64(g)) {
 		return
 	}
@@ -609,7 +633,8 @@ func (c *caseRun) final() {
 
 // ---- generator ---------------------------------------------------------
 
-func runCase(t *tr.W, rng *rand.Rand, steps int, allowMid bool) {
+func runCase(t *sink, idx int, rng *rand.Rand, steps int, allowMid bool) {
+	t.line("case %d", idx)
 	c := &caseRun{t: t, rng: rng, workers: map[int]*workerT{}, reqs: map[*query.Request][2]int{},
 		peerCh: make(chan query.Peer), allowMid: allowMid}
 	c.rk = &rankW{inner: query.NewPeerRanking(), score: map[string]uint64{},
@@ -746,29 +771,147 @@ func runCase(t *tr.W, rng *rand.Rand, steps int, allowMid bool) {
 	}
 	if c.skewed {
 		t.Hit("case.discarded-timing-skew")
+		t.line("#discard %d", idx)
 		return
 	}
-	t.Case("disp")
-	for _, l := range c.lines {
-		t.Op(l.op, l.obs)
+	t.line("#end %d", idx)
+}
+
+// caseParams derives everything random about case idx from the seed alone, so
+// that a restarted child continues with the same cases.
+func caseParams(idx, n, mid int) (*rand.Rand, int, bool) {
+	rng := tr.Rng(int64(12 + 7919*(idx+1)))
+	return rng, 8 + rng.Intn(40), idx%(n/(3*mid)+1) == 0
+}
+
+func sizes(thorough bool) (n, mid int) {
+	budget := tr.EnvInt("VERIF_BUDGET", 1)
+	n = 600 * budget
+	mid = 24 * budget
+	if thorough {
+		n *= 40
+		mid *= 8
+	}
+	return
+}
+
+// child runs cases DISP_FROM..DISP_TO-1 and writes them to DISP_OUT.
+func child(_ *tr.W, thorough bool) {
+	from, to := tr.EnvInt("DISP_FROM", 0), tr.EnvInt("DISP_TO", 0)
+	f, err := os.Create(os.Getenv("DISP_OUT"))
+	if err != nil {
+		panic(err)
+	}
+	defer f.Close()
+	o := &sink{f: f}
+	n, mid := sizes(thorough)
+	for idx := from; idx < to; idx++ {
+		rng, steps, allowMid := caseParams(idx, n, mid)
+		runCase(o, idx, rng, steps, allowMid)
 	}
 }
 
-// Run is the driver entry point.
+// Run is the driver entry point (parent): it re-executes this binary as
+// "dispchild" and replays the child's lines into the trace; a child that dies
+// becomes a `<event in flight> => PANIC …` observation of the running case.
 func Run(t *tr.W, thorough bool) {
-	rng := tr.Rng(12)
-	budget := tr.EnvInt("VERIF_BUDGET", 1)
-	n := 600 * budget
-	mid := 24 * budget
-	if thorough {
-		n *= 12
-		mid *= 6
+	n, _ := sizes(thorough)
+	dir, err := os.MkdirTemp("", "dispdrv")
+	if err != nil {
+		panic(err)
 	}
-	for i := 0; i < n; i++ {
-		steps := 8 + rng.Intn(40)
-		// one PRNG per case, so a case discarded for timing skew does not
-		// shift the cases after it
-		crng := rand.New(rand.NewSource(rng.Int63()))
-		runCase(t, crng, steps, i%(n/(3*mid)+1) == 0)
+	defer os.RemoveAll(dir)
+	crashes := 0
+	for from := 0; from < n; {
+		outPath := fmt.Sprintf("%s/child-%d.trace", dir, from)
+		cmd := exec.Command(os.Args[0], "dispchild", outPath+".unused")
+		cmd.Env = append(os.Environ(), "DISP_FROM="+strconv.Itoa(from), "DISP_TO="+strconv.Itoa(n), "DISP_OUT="+outPath)
+		var stderr bytes.Buffer
+		cmd.Stderr, cmd.Stdout = &stderr, &stderr
+		if err := cmd.Start(); err != nil {
+			panic(err)
+		}
+		done := make(chan error, 1)
+		go func() { done <- cmd.Wait() }()
+		var werr error
+		killed := false
+		limit := 5 * time.Minute
+		if thorough {
+			limit = 13 * time.Minute
+		}
+		select {
+		case werr = <-done:
+		case <-time.After(limit):
+			cmd.Process.Kill()
+			werr, killed = <-done, true
+		}
+		last, open, inflight := from-1, false, ""
+		var buf []line
+		if fh, err := os.Open(outPath); err == nil {
+			sc := bufio.NewScanner(fh)
+			sc.Buffer(make([]byte, 1<<20), 1<<26)
+			for sc.Scan() {
+				ln := sc.Text()
+				switch {
+				case strings.HasPrefix(ln, "case "):
+					last, _ = strconv.Atoi(ln[5:])
+					open, buf, inflight = true, nil, ""
+				case strings.HasPrefix(ln, "L "):
+					if i := strings.Index(ln, " => "); i >= 0 {
+						buf = append(buf, line{ln[2:i], ln[i+4:]})
+						if ln[2:i] == inflight {
+							inflight = ""
+						}
+					}
+				case strings.HasPrefix(ln, "B "):
+					inflight = ln[2:]
+				case strings.HasPrefix(ln, "#hit "):
+					t.Hit(ln[5:])
+				case strings.HasPrefix(ln, "#end "):
+					t.Case("disp idx %d", last)
+					for _, l := range buf {
+						t.Op(l.op, l.obs)
+					}
+					open = false
+				case strings.HasPrefix(ln, "#discard "):
+					open = false
+				}
+			}
+			fh.Close()
+		}
+		os.Remove(outPath + ".unused")
+		if werr == nil && !killed {
+			break
+		}
+		crashes++
+		msg := "child process died"
+		for _, l := range strings.Split(stderr.String(), "\n") {
+			if strings.HasPrefix(l, "panic:") || strings.HasPrefix(l, "fatal error:") {
+				msg = strings.TrimSpace(l)
+				break
+			}
+		}
+		if open {
+			t.Case("disp idx %d", last)
+			for _, l := range buf {
+				t.Op(l.op, l.obs)
+			}
+		} else {
+			t.Case("disp crash-between-cases")
+		}
+		if inflight == "" {
+			inflight = "status"
+		}
+		if killed {
+			t.Op(inflight, "HANG child process exceeded its time limit")
+		} else {
+			t.Op(inflight, "PANIC "+msg)
+		}
+		t.Hit("child.crash")
+		from = last + 1
+		if crashes >= 6 {
+			t.Line("# giving up after %d crashes", crashes)
+			break
+		}
 	}
 }
